@@ -105,6 +105,15 @@ fn configs(tier: Tier) -> Vec<Config> {
         last.extend([l(7), l(0), l(9)]);
         v.push(Config { name: "vi: 67 columns (column 64+j must not be confused with column j)", sigs, header, menus, bits_pairs: vec![], answer: vec![("Q".into(), V::Num(5)), ("R".into(), V::Num(9))], last });
     }
+    v.push(Config {
+        name: "vii: column D_out drives the input D_out and is the expected column of bidirectional D",
+        sigs: vec![Sig::bidir("D", 1, V::Z), Sig::inp("D_out", 1, 0), Sig::inp("CLK", 1, 0), Sig::out("Q", 4)],
+        header: vec!["D".to_string(), "D_out".to_string(), "CLK".to_string(), "Q".to_string()],
+        menus: vec![one_bit_in(), one_bit_in(), one_bit_in(), exp()],
+        bits_pairs: vec![0, 1],
+        answer: vec![("D".into(), V::Num(1)), ("Q".into(), V::Num(5))],
+        last: vec![l(1), l(0), l(1), l(7)],
+    });
     if tier == Tier::Thorough {
         v.push(Config {
             name: "v: five one-bit inputs (up to 5 X: 32 assignments), wide input, two outputs, permuted signal list",
